@@ -5,8 +5,6 @@ package c05
 import (
 	"bytes"
 	"crypto"
-	"fmt"
-
 	"testing"
 
 	"github.com/cloudflare/circl/internal/zzverif/lib"
@@ -98,7 +96,7 @@ func tryBytes(entry string, in []byte, f func() []byte) (out []byte, p *lib.Pani
 
 func TestVerifSign25519(t *testing.T) {
 	lib.Mandatory("sign25519:pure", "sign25519:ctx", "sign25519:ph", "sign25519:ctx-256-refused", "sign25519:ctx-255", "sign25519:msg-empty")
-	n := lib.Scale(400, 20000)
+	n := lib.Scale(400, 8000)
 	lib.Par(n, func(i int) {
 		r := lib.NewRng("c05/sign25519", i)
 		sclass, seed := genSeed(r, i, 32)
@@ -257,7 +255,7 @@ const monSign448 = "TestVerifSign448"
 
 func TestVerifSign448(t *testing.T) {
 	lib.Mandatory("sign448:pure", "sign448:ph", "sign448:ctx-256-refused", "sign448:ctx-255", "sign448:ctx-empty", "sign448:msg-empty")
-	n := lib.Scale(300, 12000)
+	n := lib.Scale(300, 5000)
 	lib.Par(n, func(i int) {
 		r := lib.NewRng("c05/sign448", i)
 		sclass, seed := genSeed(r, i, 57)
@@ -328,6 +326,16 @@ func TestVerifSign448(t *testing.T) {
 			return s
 		})
 		check(ref.Ed448, "ed448.PrivateKey.Sign", got, p)
+		if len(ctx) == 0 {
+			got, p = tryBytes("ed448.PrivateKey.Sign/hash0", msg, func() []byte {
+				s, err := priv.Sign(nil, msg, crypto.Hash(0))
+				if err != nil {
+					return nil
+				}
+				return s
+			})
+			check(ref.Ed448, "ed448.PrivateKey.Sign", got, p)
+		}
 		got, p = tryBytes("ed448.Scheme.Sign", msg, func() []byte {
 			return ed448.Scheme().Sign(sk2, msg, &sign.SignatureOpts{Context: string(ctx)})
 		})
@@ -375,5 +383,3 @@ func TestVerifSign448(t *testing.T) {
 		}
 	})
 }
-
-var _ = fmt.Sprint
